@@ -22,6 +22,7 @@ RULE = ("(a) system: every routing object per class (transition matrices with ex
         "element of probability 0; deterministic routers enumerated exhaustively.  Non-trivial (a): >= 20 decisions incl. >= 1 with "
         ">= 2 possible destinations; distinct by digest.")
 ASSUMPTIONS = ["JSQ 'waiting line' = customers present minus customers in live service, recomputed from the lists"]
+TECHNIQUE = 'property-based testing: every routing decision compared with the routing spec and true populations; unit property over random_choice; exhaustive enumeration of deterministic routers'
 WALL = {"quick": 150, "thorough": 540}
 
 
